@@ -526,10 +526,10 @@ def evaluate__round(self: XPathFunction, context: ta.ContextType = None) -> ta.O
     try:
         number = decimal.Decimal(arg)
         assert isinstance(arg, (int, float, decimal.Decimal))
-        if number > 0:
-            return type(arg)(number.quantize(decimal.Decimal('1'), rounding='ROUND_HALF_UP'))
-        else:
-            return type(arg)(number.quantize(decimal.Decimal('1'), rounding='ROUND_HALF_DOWN'))
+        rounding = 'ROUND_HALF_UP' if number > 0 else 'ROUND_HALF_DOWN'
+        with decimal.localcontext() as ctx:
+            ctx.prec = max(ctx.prec, number.adjusted() + 2)  # keeps all the integer digits
+            return type(arg)(number.quantize(decimal.Decimal('1'), rounding=rounding))
     except TypeError as err:
         if isinstance(context, XPathSchemaContext):
             return []
